@@ -11,8 +11,36 @@ def probe_rules(n):
     return [ExternRule("Probe%d" % i, ["vfrt", "vfu", "probe_%d" % i]) for i in range(n)]
 
 
+NFAM = 7
+
+
 def fam(index):
-    k = index % 5
+    k = index % NFAM
+    if k == 5:
+        # long inputs: the whole list is re-attempted by the second alternative, far from where the first one failed
+        item = Rule("Item", Cho([Seq([Ref("Probe0"), Grp(Cho([Seq([Rng("a", "z"), Opt(Cho([Seq([Rng("0", "9")])]))])]))])]), ["memoize", "string", "no_skip_ws"])
+        stop = Rule("Stop", Cho([Seq([Ref("Probe1"), Grp(Cho([Seq([L("!")]), Seq([L("?")]), Seq([L(";")])]))])]), ["memoize", "no_skip_ws"])
+        lst = Rule("Lst", Cho([Seq([Clo(Cho([Seq([Neg(Ref("Stop")), Ref("Item", "items")])]))])]), ["no_skip_ws"])
+        s = Rule("Ss", Cho([Seq([Ref("Lst", "a"), L("!"), Eoi()]), Seq([Ref("Lst", "a"), L("?"), Eoi()]), Seq([Ref("Lst", "a"), L(";"), Eoi()])]), ["export", "no_skip_ws"])
+        g = Grammar([s, lst, item, stop] + probe_rules(2))
+        ins = []
+        for n in (1, 10, 63, 64, 65, 100, 128, 200, 300):
+            body = "".join("abcdefghij"[i % 10] + ("" if i % 3 else str(i % 10)) for i in range(n))
+            ins += [body + "!", body + "?", body + ";", body + "#", body]
+        return g, {"Ss": ins}, [("".join("abcdefghij"[i % 10] + ("" if i % 3 else str(i % 10)) for i in range(n)) + "#", n) for n in (64, 128, 300)]
+    if k == 6:
+        # long inputs with a skipping grammar and three alternatives sharing a long memoized prefix
+        word = Rule("Word", Cho([Seq([Ref("Probe0"), Grp(Cho([Seq([Clo(Cho([Seq([Rng("a", "z")])]), True)])]))])]), ["memoize", "string", "no_skip_ws", "position"])
+        pair = Rule("Pair", Cho([Seq([Ref("Probe1"), Grp(Cho([Seq([Ref("Word", "k"), L("="), Ref("Word", "v")]), Seq([Ref("Word", "k")])]))])]), ["memoize"])
+        s = Rule("Ss", Cho([Seq([Clo(Cho([Seq([Ref("Pair", "p"), L(",")])])), L("end"), Eoi()]),
+                            Seq([Clo(Cho([Seq([Ref("Pair", "p"), L(",")])])), L("stop"), Eoi()]),
+                            Seq([Clo(Cho([Seq([Ref("Pair", "p"), L(",")])])), Opt(Cho([Seq([Ref("Pair", "p")])])), Eoi()])]), ["export"])
+        g = Grammar([s, pair, word] + probe_rules(2))
+        ins = []
+        for n in (1, 8, 20, 40, 70, 120):
+            body = " ".join(("k%s = v," % "") .replace("k", "key"[: 1 + i % 3]).replace("v", "val"[: 1 + i % 2]) if i % 2 else "x," for i in range(n))
+            ins += [body + " end", body + " stop", body + " z", body + " =", body]
+        return g, {"Ss": ins}, []
     if k == 0:
         # nested brackets, three alternatives sharing the prefix '(' A
         a = Rule("Aa", Cho([Seq([Ref("Probe0"), Grp(Cho([
